@@ -89,6 +89,9 @@ BYTESLIKE = [b'', b'abc', b'\xff\xfe', bytearray(b''), bytearray(b'abc'),
              _array.array('B', b'abc')]
 
 
+ReentrantTZ = gv.ReentrantTZ
+
+
 class _Obj:
     def __repr__(self):
         return '<hostile object>'
@@ -138,6 +141,15 @@ def hostile_tables(rnd):
             yield {name: v}
         yield {name: kinds[j % len(kinds)], 'other': 1, 'arr': [
             {name: kinds[(j + 5) % len(kinds)]}]}
+    # an over-long name (logged when it is truncated) AFTER ordinary entries,
+    # and a datetime whose tzinfo re-enters the encoder from utcoffset():
+    # whatever the encoder had written so far must still be there afterwards
+    yield {'a': 1, 'b': 'two', 'c': [3], 'z' * 300: 4}
+    yield {'a': {'m': 1, 'n': 2, 'y' * 200: 3}, 'b': [1, {'k': 1,
+                                                          'x' * 129: 2}]}
+    yield {'a': 1, 'b': 'two', 't': dt(2020, 5, 17, 12, tz=ReentrantTZ()),
+           'z': 3}
+    yield [1, 'two', dt(2021, 1, 2, 3, tz=ReentrantTZ()), 4]
     yield {'a': {'b': [2**64, {'c': -2**64}]}}
     yield {'k' * 128 + 'a': 1, 'k' * 128 + 'b': 2}
     yield ['x', ('t',)]
